@@ -28,6 +28,9 @@ fn main() {
         "C09" => props_kin::c09(seed, n),
         "C16" => props_kin::c16(seed, n),
         "C07" => props_misc::c07(seed, n),
+        "C18" => props_misc::c18(seed, n),
+        "C17" => props_misc::c17(seed, n),
+        "C15" => props_misc::c15(seed, n),
         "consts" => props_kin::consts(),
         _ => { eprintln!("unknown property {}", prop); std::process::exit(2); }
     }
